@@ -32,7 +32,12 @@ for (name,f,old,new,checks,control) in m.M:
         mutated=src.replace(old2,new2,1)
     else:
         assert src.count(old)>=1, ("pattern not found", name)
-        mutated=src.replace(old,new,1)
+        if name.endswith("@2"):
+            # second occurrence (the async half of a macro-duplicated body)
+            i=src.index(old); j=src.index(old,i+len(old))
+            mutated=src[:j]+new+src[j+len(old):]
+        else:
+            mutated=src.replace(old,new,1)
     open(path,"w").write(mutated)
     ok,err=build()
     res={}
